@@ -16,10 +16,11 @@ import (
 // implement the runtime.ScriggoType interface.
 
 func wrap(t runtime.ScriggoType, v reflect.Value) reflect.Value {
-	return reflect.ValueOf(emptyInterfaceProxy{
-		value: v,
-		sign:  t,
-	})
+	p := emptyInterfaceProxy{sign: t}
+	if v.IsValid() {
+		p.value = v.Interface()
+	}
+	return reflect.ValueOf(p)
 }
 
 // TODO: currently unwrap always returns an empty interface wrapper. This will
@@ -34,13 +35,16 @@ func unwrap(x runtime.ScriggoType, v reflect.Value) (reflect.Value, bool) {
 	if p.sign != x {
 		return reflect.Value{}, false
 	}
-	return p.value, true
+	return reflect.ValueOf(p.value), true
 }
 
 // emptyInterfaceProxy is a proxy for values of types that have an empty
 // method set.
+//
+// Two proxies are equal, for the == operator of Go and so as keys of a map,
+// if and only if they have the same type and equal values.
 type emptyInterfaceProxy struct {
-	value reflect.Value
+	value any
 	sign  runtime.ScriggoType
 }
 
@@ -48,9 +52,5 @@ type emptyInterfaceProxy struct {
 // passed to a function of the fmt package, is formatted as its underlying
 // value is.
 func (p emptyInterfaceProxy) Format(f fmt.State, verb rune) {
-	if !p.value.IsValid() || !p.value.CanInterface() {
-		fmt.Fprint(f, "<nil>")
-		return
-	}
-	fmt.Fprintf(f, fmt.FormatString(f, verb), p.value.Interface())
+	fmt.Fprintf(f, fmt.FormatString(f, verb), p.value)
 }
